@@ -229,7 +229,9 @@ func (c *Config) handleSvcEndpointUpdate(svcName string, added, removed []*servi
 		validAdded = append(validAdded, endpoint)
 	}
 
-	if sw.Config == nil {
+	// the endpoints are still unknown if the update only removed endpoints
+	// which are not present, the service can't be announced yet.
+	if sw.Config == nil || sw.Endpoints == nil {
 		return
 	}
 	switch oldEndpoints {
